@@ -49,6 +49,14 @@ RECURSIVE SumF(_, _)
 SumF(f, S) == IF S = {} THEN 0 ELSE LET x == CHOOSE y \in S : TRUE IN f[x] + SumF(f, S \ {x})
 ConnReceived(e, sid, end) == SumF([s \in Sids |-> IF s = sid THEN Max2(end, recvEnd[e][s]) ELSE recvEnd[e][s]], {s \in Sids : recvEnd[e][s] > 0 \/ s = sid})
 
+\* The limit a violation is judged against: what e has ADVERTISED, or - if larger - what it is entitled to advertise at this
+\* moment (bytes its application consumed + configured window): the endpoint enforces its own up-to-date credit, a MAX_DATA /
+\* MAX_STREAM_DATA frame announcing it may still be waiting for a transmission opportunity.  Data between the two values
+\* cannot come from an honest peer; accepting it stays within the buffering bound of the property.
+ConnConsumed(e) == SumF(consumed[e], {s \in Sids : consumed[e][s] > 0})
+ConnLimit(e) == Max2(advD[e], ConnConsumed(e) + cfg[e].data_window)
+StreamLimit(e, sid) == Max2(advSD[e][sid], consumed[e][sid] + InitialRecvSD(e, sid, cfg[e]))
+
 \* may the peer address this stream at all?  {} = yes, otherwise the admissible error codes
 DirectionVerdict(e, sid, needsRecvSide, needsSendSide) ==
   IF Initiator(sid) = e
@@ -63,14 +71,14 @@ StreamVerdict(e, sid, off, len, fin) ==
   LET end == off + len
       d == DirectionVerdict(e, sid, TRUE, FALSE) IN
   IF d # {} THEN d
-  ELSE (IF end > advSD[e][sid] \/ ConnReceived(e, sid, end) > advD[e] THEN {FLOW_CONTROL_ERROR} ELSE {})
+  ELSE (IF end > StreamLimit(e, sid) \/ ConnReceived(e, sid, end) > ConnLimit(e) THEN {FLOW_CONTROL_ERROR} ELSE {})
        \cup (IF (finalSz[e][sid] # None /\ (end > finalSz[e][sid] \/ (fin /\ end # finalSz[e][sid]))) \/ (fin /\ end < recvEnd[e][sid])
              THEN {FINAL_SIZE_ERROR} ELSE {})
 ResetVerdict(e, sid, final) ==
   LET d == DirectionVerdict(e, sid, TRUE, FALSE) IN
   IF d # {} THEN d
   \* a final size can break the flow-control limit and contradict what is known of the stream at once: either code is right
-  ELSE (IF final > advSD[e][sid] \/ ConnReceived(e, sid, final) > advD[e] THEN {FLOW_CONTROL_ERROR} ELSE {})
+  ELSE (IF final > StreamLimit(e, sid) \/ ConnReceived(e, sid, final) > ConnLimit(e) THEN {FLOW_CONTROL_ERROR} ELSE {})
        \cup (IF final < recvEnd[e][sid] \/ (finalSz[e][sid] # None /\ final # finalSz[e][sid]) THEN {FINAL_SIZE_ERROR} ELSE {})
 \* MAX_STREAM_DATA / STOP_SENDING address the SENDING side of the stream at e
 SendSideVerdict(e, sid) == DirectionVerdict(e, sid, FALSE, TRUE)
